@@ -228,6 +228,34 @@ class SymKit(KitBase):
     def fresh_int(self, name):
         return z3.Int(self.ctx.fresh_name(name))
 
+    def str_eq(self, a, b):
+        from . import strings as STR
+        r = STR.eq(self.I, wrap(a), wrap(b), None) if not (isinstance(a, str) and isinstance(b, str)) else a == b
+        return r.t if isinstance(r, SV) else r
+
+    def parse_ints(self, s, template):
+        """Match a string against a template with {} holes for integers; returns the integers or None."""
+        lits = template.split("{}")
+        s = wrap(s)
+        if isinstance(s, str):
+            import re as _re
+            m = _re.fullmatch("(-?\\d+)".join(_re.escape(x) for x in lits), s)
+            return [int(g) for g in m.groups()] if m else None
+        parts = list(s.parts)
+        out = []
+        i = 0
+        for k, lit in enumerate(lits):
+            if lit:
+                if i >= len(parts) or parts[i] != lit:
+                    return None
+                i += 1
+            if k < len(lits) - 1:
+                if i >= len(parts) or not (isinstance(parts[i], tuple) and parts[i][0] == "int" and parts[i][2] == ""):
+                    return None
+                out.append(parts[i][1].t)
+                i += 1
+        return out if i == len(parts) else None
+
     def string_z3(self, s):
         from . import strings as STR
         return STR.to_z3_string(self.I, wrap(s))
@@ -364,6 +392,15 @@ class ConcKit(KitBase):
 
     def index(self, v, i):
         return v[i]
+
+    def str_eq(self, a, b):
+        return a == b
+
+    def parse_ints(self, s, template):
+        import re as _re
+        lits = template.split("{}")
+        m = _re.fullmatch("(-?\\d+)".join(_re.escape(x) for x in lits), s)
+        return [int(g) for g in m.groups()] if m else None
 
 
 def resolve_target(target):
